@@ -56,6 +56,9 @@ func main() {
 	if tier == "thorough" {
 		budget = c.ThoroughBudget
 	}
+	if m, err := time.ParseDuration(os.Getenv("VERIF_BUDGET")); err == nil && m > 0 {
+		budget = m // development aid (a shortened thorough pass); registered commands never set it
+	}
 	r := report.New(id, tier, c.Level, budget)
 	c.Run(r)
 	os.Exit(r.Finish())
